@@ -95,6 +95,9 @@ impl<'a> Oracle<'a> {
             "C08" => self.c08(&toks),
             "C09" => self.c09(&toks),
             "C11" => self.c11(&toks),
+            "C04" => self.c04(&toks),
+            "C05" => self.c05(&toks),
+            "C19" => self.c19(&toks),
             "C17" => self.c17(&toks),
             _ => "SKIP".to_string(),
         }));
@@ -645,6 +648,71 @@ impl<'a> Oracle<'a> {
                         "OK".to_string()
                     }
                 }
+            }
+            _ => "SKIP".to_string(),
+        }
+    }
+}
+
+impl<'a> Oracle<'a> {
+    // ---------------- C04: the reader accepts exactly the documented grammar ----------------
+    fn c04(&mut self, toks: &[&str]) -> String {
+        match toks {
+            ["READ", h] => {
+                let s = match unhex(h) { Some(s) => s, None => return "SKIP".to_string() };
+                let resp = imp::do_read(self.t, &s);
+                if resp.contains("FOLLOWERDEP") { return fail(format!("the verdict for {:?} depends on the follower: {}", s, &resp[resp.find("FOLLOWERDEP").unwrap()..])) }
+                let accepted = resp.starts_with("ok #");
+                let want = crate::refsmiles::classify(&s) == crate::refsmiles::Verdict::Ok;
+                if accepted && !want { return fail(format!("{:?} is accepted but is not a sentence of the documented grammar", s)) }
+                if !accepted && want { return fail(format!("{:?} is a sentence of the documented grammar but is refused ({})", s, resp.split(' ').next().unwrap_or(""))) }
+                "OK".to_string()
+            }
+            _ => "SKIP".to_string(),
+        }
+    }
+
+    // ---------------- C05: syntax errors point at the first offending character ----------------
+    fn c05(&mut self, toks: &[&str]) -> String {
+        use crate::refsmiles::{classify, completion, Verdict};
+        match toks {
+            ["READ", h] => {
+                let s = match unhex(h) { Some(s) => s, None => return "SKIP".to_string() };
+                let mut rec = Rec::new(self.t);
+                let r = catch_unwind(AssertUnwindSafe(|| read(&s, &mut rec, None)));
+                let got = match r {
+                    Ok(Ok(())) => return "SKIP".to_string(),
+                    Ok(Err(purr::read::Error::Character(i))) => Verdict::Character(i),
+                    Ok(Err(purr::read::Error::EndOfLine)) => Verdict::EndOfLine,
+                    Err(_) => return fail(format!("reading {:?} panics", s)),
+                };
+                let want = classify(&s);
+                if got != want { return fail(format!("{:?} is refused with {:?}; the first character that cannot continue a valid SMILES gives {:?}", s, got, want)) }
+                // independent confirmation by brute force: the prefix before the cursor can be completed
+                let chars: Vec<char> = s.chars().collect();
+                let prefix: String = match got { Verdict::Character(i) => chars[..i].iter().collect(), _ => s.clone() };
+                if !prefix.is_empty() && chars.len() <= 40 && completion(&prefix).is_none() {
+                    return fail(format!("{:?}: no completion of the prefix {:?} before the reported cursor was found", s, prefix))
+                }
+                "OK".to_string()
+            }
+            _ => "SKIP".to_string(),
+        }
+    }
+
+    // ---------------- C19: stack use is bounded by nesting ----------------
+    fn c19(&mut self, toks: &[&str]) -> String {
+        match toks {
+            ["READ", h] => {
+                let s = match unhex(h) { Some(s) => s, None => return "SKIP".to_string() };
+                let mut cur = 0usize; let mut nesting = 0usize;
+                for c in s.chars() { if c == '(' { cur += 1; if cur > nesting { nesting = cur } } else if c == ')' && cur > 0 { cur -= 1 } }
+                let mut rec = Rec::new(self.t);
+                purr::verif::reset_depth();
+                let _ = catch_unwind(AssertUnwindSafe(|| read(&s, &mut rec, None)));
+                let d = purr::verif::max_depth();
+                if d > nesting + 1 { return fail(format!("reading a string of {} characters with parenthesis nesting {} uses {} nested read_smiles activations", s.chars().count(), nesting, d)) }
+                "OK".to_string()
             }
             _ => "SKIP".to_string(),
         }
